@@ -1,5 +1,7 @@
 package main
 
+import "os"
+
 // A cheap sound pre-check for branch conditions: unsigned-interval evaluation of terms
 // under the simple variable bounds harvested from the path condition (var <= c,
 // var >= c, var == c). If the interval evaluation decides a condition, no solver call
@@ -124,6 +126,9 @@ func maxU(a, b uint64) uint64 {
 func (e *Explorer) evalBool(t *Term, depth int) int {
 	if t.isConst() {
 		return int(t.cv)
+	}
+	if envNoAbs {
+		return -1
 	}
 	if depth <= 0 {
 		return -1
@@ -388,3 +393,5 @@ func (e *Explorer) harvestPol(c *Term, pos bool, depth int) {
 		}
 	}
 }
+
+var envNoAbs = os.Getenv("SYMGO_NOABS") != ""
